@@ -213,7 +213,21 @@ def extra_checks(tier, verdict, cov):
                 sig = {"kind": v["kind"], "rules": "+".join(r["have"]), "foreign": r["foreign"]}
                 verdict.report(sig, {"engine": "E1-history", "check": "outside", "have": r["have"], "foreign": r["foreign"], "violation": v})
                 bad.append((r, v))
+    # arguments that name no file at all: redo-whichdo (and redo) say so; nobody aborts
+    dg_root = os.path.join(root, "degenerate")
+    os.makedirs(dg_root + "/home", exist_ok=True)
+    os.makedirs(dg_root + "/p/.redo", exist_ok=True)
+    denv = common.base_env(bindir, dg_root + "/home")
+    degenerate = ["/", "/..", "//", "/.", ".", "..", "./", "a/..", "a/../.."]
+    for arg in degenerate:
+        for tool in ("redo-whichdo", "redo-ifchange"):
+            rc, out, err = common.run_cmd([os.path.join(bindir, tool), arg], dg_root + "/p", denv, timeout=30)
+            if rc == 101 or "panicked" in err:
+                sig = {"kind": "abort-on-an-argument-that-names-no-file", "tool": tool, "argument": arg}
+                verdict.report(sig, {"engine": "E1-history", "check": "degenerate", "argument": arg, "tool": tool, "rc": rc, "stderr": err[-300:]})
+                bad.append(({"target": arg, "low": None, "high": None, "premkdir": None}, sig))
     if cov is not None:
+        cov["arguments_that_name_no_file"] = {"arguments": degenerate, "tools": ["redo-whichdo", "redo-ifchange"]}
         cov["targets_outside_the_project"] = {"cases": len(ojobs), "rule_places": ["outside", "ws", "top"],
                                               "foreign_rule_in_project_dir": [None, "default.gen.do", "default.do"]}
         cov["evaluations"] += len(ojobs)
@@ -589,6 +603,14 @@ def replay(path):
                 print(json.dumps({"placed": r["placed"], "violation": v, "whichdo": r.get("whichdo"),
                                   "redo": r.get("redo")}, indent=1, ensure_ascii=False))
             bad = len(allbad)
+        elif doc.get("check") == "degenerate":
+            d = str(common.scratch_root() / "c13dg")
+            os.makedirs(d + "/home", exist_ok=True)
+            os.makedirs(d + "/p/.redo", exist_ok=True)
+            bd = str(common.build_subject())
+            rc, out, err = common.run_cmd([os.path.join(bd, doc["tool"]), doc["argument"]], d + "/p", common.base_env(bd, d + "/home"), timeout=30)
+            print(rc, err[-300:])
+            bad = int(rc == 101 or "panicked" in err)
         elif doc.get("check") == "outside":
             root = str(common.scratch_root() / "c13h")
             os.makedirs(root, exist_ok=True)
